@@ -251,7 +251,23 @@ fn gen_literal_text(t: &mut Tape) -> String {
     }
 }
 
+/// a text whose error message (under the standard library) renders a compound type with several
+/// fields / a generic binding: the rendering must not depend on hash-map iteration order
+fn gen_compound_error_text(t: &mut Tape) -> String {
+    let n = 3 + t.below(4);
+    let fields: Vec<String> = (0..n).map(|i| format!("f{i}: int")).collect();
+    let args: Vec<String> = (0..n).map(|i| i.to_string()).collect();
+    match t.below(3) {
+        0 => format!("struct Pq({})\nlet x = 1 == Pq({});", fields.join(", "), args.join(", ")),
+        1 => "struct Pq<A, B, C>(a: A, b: B, c: C)\nlet x = \"s\" + Pq(1, \"a\", [1.5]);".to_string(),
+        _ => format!("union Uq({})\nlet x = Uq::f0(1) < 3;", fields.join(", ")),
+    }
+}
+
 fn gen_mutation(t: &mut Tape) -> String {
+    if t.below(40) == 0 {
+        return gen_compound_error_text(t);
+    }
     let c = corpus();
     let base = &c[t.below(c.len())];
     let mut toks = tokenize(base);
